@@ -359,8 +359,12 @@ def write_evidence(ctx, path, error=None):
         'seed': ctx.seed,
         'level': 'proof',
         'coverage': {
-            'obligations': len(obs),
+            # the proof-level claim covers the obligations that are not recorded known findings;
+            # those are counted separately (they are refuted on every run and reported as KNOWN-FINDING)
+            'obligations': len(obs) - len([o for o in obs if o.verdict == 'refuted' and match_known(known, ctx.pid, o)]),
             'discharged': len(proved),
+            'obligations_generated': len(obs),
+            'known_finding_obligations': len([o for o in obs if o.verdict == 'refuted' and match_known(known, ctx.pid, o)]),
             'checker_cmd': './check %s --tier %s' % (ctx.pid, ctx.tier),
             'trusted_base': ctx.trusted_base + [
                 'pyvc symbolic interpreter and VC generator (/verif/pyvc), induction principle for loop invariants',
